@@ -56,6 +56,12 @@ def spec_for(c):
                          [("GET", "/v1/things"), ("GET", "/v1/things/7")]),
             "root_and_param": ({"/": {"get": op("getRoot")}, "/{id}": {"get": op("getByID", ["id"])}}, [("GET", "/"), ("GET", "/7")]),
         }
+        def tagged(o, tags):
+            o = dict(o); o["tags"] = tags; return o
+        table["tags_selected"] = ({"/reports": {"get": tagged(op("listReports"), ["admin", "billing"])}, "/invoices": {"get": tagged(op("listInvoices"), ["billing"])},
+                                   "/ledgers": {"get": tagged(op("listLedgers"), ["billing", "admin"])}, "/audits": {"get": tagged(op("listAudits"), ["ops", "admin", "billing"])},
+                                   "/users": {"get": tagged(op("listUsers"), ["admin"])}},
+                                  [("GET", "/reports"), ("GET", "/invoices"), ("GET", "/ledgers"), ("GET", "/audits")])
         paths, routes = table[a]
         if a == "basepath":
             base_path = "/v1"
@@ -64,7 +70,14 @@ def spec_for(c):
     if base_path:
         doc["basePath"] = base_path
     routes = [r if isinstance(r, tuple) else ("GET", r) for r in routes]
-    return doc, routes, sum(len(v) for v in paths.values()), len(defs)
+    nops = sum(len(v) for v in paths.values())
+    if pos == "shape" and a == "tags_selected":
+        nops = len(routes)          # the operations carrying the selected tag
+    return doc, routes, nops, len(defs)
+
+
+def gen_flags(c):
+    return ["--tags", "billing"] if c["pos"] == "shape" and c["a"] == "tags_selected" else []
 
 
 def check(run, replay=None):
@@ -84,9 +97,9 @@ def check(run, replay=None):
         tag = "n%d" % i
         mod = run.scratch_module("srv-" + tag, modname="scratch/gen")
         evs = []
-        g = run.sh([swagger, "generate", "server", "-f", sp, "-t", mod, "--name", "verif"], cwd=mod, check=False, timeout=900)
+        g = run.sh([swagger, "generate", "server", "-f", sp, "-t", mod, "--name", "verif"] + gen_flags(c), cwd=mod, check=False, timeout=900)
         if g.returncode == 0:
-            g2 = run.sh([swagger, "generate", "client", "-f", sp, "-t", mod, "--name", "verif"], cwd=mod, check=False, timeout=900)
+            g2 = run.sh([swagger, "generate", "client", "-f", sp, "-t", mod, "--name", "verif"] + gen_flags(c), cwd=mod, check=False, timeout=900)
             rc, errtxt = g2.returncode, g2.stderr
         else:
             rc, errtxt = g.returncode, g.stderr
